@@ -8,7 +8,7 @@
    (golang.org/x/text/language), and the JavaScript backend (node). *)
 From Coq Require Import Permutation.
 From Soy Require Import Model.Bytes Model.Outcome Model.Num Model.Values Model.Ast Model.MsgId
-  Model.Interp Model.MsgParts Spec.MsgCat Proofs.MsgPartsProofs.
+  Model.Escape Model.Interp Model.MsgParts Spec.MsgCat Proofs.MsgPartsProofs Proofs.InterpRelProofs Proofs.MsgCatProofs.
 Open Scope N_scope.
 
 (* ------------------------------------------------------------------ *)
@@ -142,6 +142,80 @@ Proof. exact identity_form. Qed.
 Print Assumptions C11_identity_form.
 
 (* ------------------------------------------------------------------ *)
+(* whole program: the identity (and any partial identity) catalogue     *)
+(* ------------------------------------------------------------------ *)
+
+(* [ident_ok plural_index bd id body] (Proofs/MsgCatProofs.v): the bundle has no
+   entry for id, or its entry is the identity translation of the message --
+   msgstr = msgid for a message that Validate accepts (reads_back), or, for a PO
+   plural ({case 1}{default}), msgstr[plural_index n] = the msgid of the case the
+   source selects for n (for every n: under n != 1 that is msgstr[0] = msgid,
+   msgstr[1] = msgid_plural) -- with coherent placeholder names.
+   [okP (ident_ok ..) n]: every {msg} node of the tree n satisfies it.
+   [st_equiv]: machine states that differ only in how the bytes written so far
+   are cut into Write calls and in the error-position register, fault-free
+   writers.  [res_rel x y]: x ran out of the model's fuel, or x and y have the
+   same outcome (value / error class) and equivalent states.
+   [mrel m1 m2]: from equivalent states, res_rel (m1 s1) (m2 s2). *)
+
+(* rendering without a catalogue is matched by rendering with it, at the same fuel *)
+Theorem C11_identity_catalogue_walker : forall cf plural_index bd,
+  Forall (fun t => okP (ident_ok plural_index bd) (t_node t)) (r_templates (c_reg cf)) ->
+  forall f n, okP (ident_ok plural_index bd) n -> mrel (walk cf f n) (walk_b cf plural_index bd f n).
+Proof. exact nocat_refines_cat. Qed.
+Print Assumptions C11_identity_catalogue_walker.
+
+(* ... and conversely (a translated message spends less fuel than its source: 2f+1 suffices) *)
+Theorem C11_identity_catalogue_walker_conv : forall cf plural_index bd,
+  Forall (fun t => okP (ident_ok plural_index bd) (t_node t)) (r_templates (c_reg cf)) ->
+  forall f n, okP (ident_ok plural_index bd) n -> mrel (walk_b cf plural_index bd f n) (walk cf (2 * f + 1) n).
+Proof. exact cat_refines_nocat. Qed.
+Print Assumptions C11_identity_catalogue_walker_conv.
+
+(* Renderer.Execute: a render that succeeds without the catalogue succeeds with
+   it and writes the same bytes, and conversely *)
+Theorem C11_identity_catalogue : forall cf plural_index bd,
+  Forall (fun t => okP (ident_ok plural_index bd) (t_node t)) (r_templates (c_reg cf)) ->
+  forall f name did data fid,
+  rr_outcome (render cf f name did data None None fid) = Ok tt ->
+  rr_outcome (render_b cf plural_index bd f name did data None None fid) = Ok tt /\
+  concat_b (rr_writes (render_b cf plural_index bd f name did data None None fid)) =
+  concat_b (rr_writes (render cf f name did data None None fid)).
+Proof. exact render_nocat_to_cat. Qed.
+Print Assumptions C11_identity_catalogue.
+
+Theorem C11_identity_catalogue_conv : forall cf plural_index bd,
+  Forall (fun t => okP (ident_ok plural_index bd) (t_node t)) (r_templates (c_reg cf)) ->
+  forall f name did data fid,
+  rr_outcome (render_b cf plural_index bd f name did data None None fid) = Ok tt ->
+  rr_outcome (render cf (2 * f + 1) name did data None None fid) = Ok tt /\
+  concat_b (rr_writes (render cf (2 * f + 1) name did data None None fid)) =
+  concat_b (rr_writes (render_b cf plural_index bd f name did data None None fid)).
+Proof. exact render_cat_to_nocat. Qed.
+Print Assumptions C11_identity_catalogue_conv.
+
+(* a render that fails without the catalogue fails with it, after the same bytes *)
+Theorem C11_identity_catalogue_errors : forall cf plural_index bd,
+  Forall (fun t => okP (ident_ok plural_index bd) (t_node t)) (r_templates (c_reg cf)) ->
+  forall f name did data fid,
+  rr_outcome (render cf f name did data None None fid) <> OutOfFuel ->
+  is_ok (rr_outcome (render_b cf plural_index bd f name did data None None fid)) =
+  is_ok (rr_outcome (render cf f name did data None None fid)) /\
+  concat_b (rr_writes (render_b cf plural_index bd f name did data None None fid)) =
+  concat_b (rr_writes (render cf f name did data None None fid)).
+Proof. exact render_error_agrees. Qed.
+Print Assumptions C11_identity_catalogue_errors.
+
+(* the tree walker itself respects the equivalence (one unfolding, any related walkers) *)
+Theorem C11_walker_parametric : forall cf (okm : N -> list node -> Prop),
+  (forall body, okm 0 body) ->
+  Forall (fun t => okP okm (t_node t)) (r_templates (c_reg cf)) ->
+  forall w1 w2, (forall n, okP okm n -> mrel (w1 n) (w2 n)) ->
+  forall n, okP okm n -> mrel (walk_body cf w1 n) (walk_body cf w2 n).
+Proof. exact walk_body_rel. Qed.
+Print Assumptions C11_walker_parametric.
+
+(* ------------------------------------------------------------------ *)
 (* non-vacuity: Hello {$name}, you have {$n} <b>new</b> messages         *)
 (* ------------------------------------------------------------------ *)
 
@@ -180,6 +254,42 @@ Qed.
 (* the reversed plural-free catalogue of this message, end to end in the model *)
 Example ex_parts_roundtrip : parts (b "{N} messages pour {NAME}") = [PPh (b "N"); PText (b " messages pour "); PPh (b "NAME")].
 Proof. vm_compute. reflexivity. Qed.
+
+(* the hypotheses of the whole-program theorems are satisfiable: a template with
+   the message above and a PO plural, a catalogue holding their identity
+   translations under the n != 1 rule *)
+Definition ex_cb : list node := [NRawText 60 (b "one")].
+Definition ex_dflt : list node := [NMsgPlaceholder 70 (b "N_2") ex_n; NRawText 74 (b " many")].
+Definition ex_plural : list node :=
+  [NMsgPlural 50 (b "N_1") (NDataRef 51 (b "n") []) [NMsgPluralCase 55 1%Z ex_cb] ex_dflt].
+Definition ex_bd : bundle :=
+  [(5, new_message [] [write_body ex_body]); (6, new_message (b "N_1") [write_body ex_cb; write_body ex_dflt])].
+Definition ex_template : node :=
+  NTemplate 0 (b "ns.t") (NList 0 [NMsg 0 5 [] (b "d") ex_body; NMsg 45 6 [] (b "p") ex_plural; NMsg 90 7 [] (b "absent") ex_cb]) 0 false.
+
+Example ex_ident_flat : ident_ok plural_neq1 ex_bd 5 ex_body.
+Proof.
+  unfold ident_ok. replace (bundle_message ex_bd 5) with (Some (new_message [] [write_body ex_body])) by reflexivity.
+  left. split; [vm_compute; reflexivity|]. split; [exact ex_coherent | reflexivity].
+Qed.
+
+Example ex_ident_plural : ident_ok plural_neq1 ex_bd 6 ex_plural.
+Proof.
+  unfold ident_ok.
+  replace (bundle_message ex_bd 6) with (Some (new_message (b "N_1") [write_body ex_cb; write_body ex_dflt])) by reflexivity.
+  right. exists 50, (b "N_1"), (NDataRef 51 (b "n") []), 55, ex_cb, ex_dflt, [write_body ex_cb; write_body ex_dflt].
+  split; [reflexivity|]. split; [discriminate|]. split; [reflexivity|].
+  split; [vm_compute; reflexivity|]. split; [vm_compute; reflexivity|]. split.
+  - intros p1 p2 n b1 b2 H1 H2. cbn in H1, H2.
+    destruct H1 as [H1|[H1|[H1|[]]]]; try discriminate. destruct H2 as [H2|[H2|[H2|[]]]]; try discriminate. congruence.
+  - intros i. unfold plural_neq1. destruct (i =? 1)%Z; reflexivity.
+Qed.
+
+Example ex_okP : okP (ident_ok plural_neq1 ex_bd) ex_template.
+Proof.
+  cbn [okP fold_right ex_template ex_body ex_plural ex_cb ex_dflt ex_name ex_n snd].
+  repeat split; try exact ex_ident_flat; try exact ex_ident_plural.
+Qed.
 
 (* ------------------------------------------------------------------ *)
 (* the pinned code (before the repairs) violates the property           *)
